@@ -223,6 +223,28 @@ let judge _id (c : cursor) (r : cursor) : bool * string =
             oracle_fail clause site
               (Printf.sprintf "set %d: returned %s has ucb %.12g but %s has ucb %.12g (%s)" s (str_act i_act) (fl tm tb) (str_act a) (fl m b) (shape a_sp rs_m)))
         (all_actions a_sp);
+      (* C: the UCVE model (same elimination order) returns the same (mean, bonus), or another
+         pair of exactly the same ucb (tie) *)
+      let mo_rs = List.map (fun (pa, m, b) -> ((pa.keys, pa.vals), [m; b])) rules in
+      let zero_rules = List.map (fun (pa, _, _) -> ((pa.keys, pa.vals), q_zero)) rules in
+      let horder = heur_order a_sp (make_graph a_sp zero_rules) in
+      let (m_act, (m_m, m_b)) = ucve a_sp logta mo_rs horder in
+      (* with the verification hook UCVE::verifBoundsObserver: the pruning bounds of every removal *)
+      if (not (at_end r)) && peek r = "T" then begin
+        ignore (next r);
+        let tr = next_qs r in
+        let m_tr = ucve_trace a_sp logta mo_rs horder in
+        let m_flat = List.concat_map (fun (v, (xl, xu)) -> [q_of_int (int_of_nat v); xl; xu]) m_tr in
+        if not (List.length tr = List.length m_flat && List.for_all2 q_eq tr m_flat) then
+          disagree "ucve_bounds" "UCVE::Global::beginRemoval"
+            (Printf.sprintf "set %d: (agent x_l x_u)* model [%s] impl [%s]" s (str_qs m_flat) (str_qs tr))
+      end;
+      if not (q_eq m_m i_m && q_eq m_b i_b) then begin
+        if not (sqrt_sum_le m_m (scale m_b) i_m (scale i_b) && sqrt_sum_le i_m (scale i_b) m_m (scale m_b)) then
+          disagree "ucve_model_value" site
+            (Printf.sprintf "set %d: model %s (%s, %s), impl %s (%s, %s)" s (str_act m_act) (string_of_q m_m) (string_of_q m_b)
+               (str_act i_act) (string_of_q i_m) (string_of_q i_b))
+      end;
       if List.length rules >= 2 then nt := true;
       tag := "ucve-" ^ (if not (complete a_sp pas) then "incomplete" else if n_rule_components a_sp pas >= 2 then "multi" else if n_keysets >= 2 then "connected-multifactor" else "single")
     done;
